@@ -790,3 +790,12 @@ func sortedKeys[V any](m map[string]V) []string {
 	sort.Strings(ks)
 	return ks
 }
+
+// repoRoot is /repo, or the scratch copy named by VERIF_REPO when the checks are tried
+// against a copy of the repository.
+func repoRoot() string {
+	if r := os.Getenv("VERIF_REPO"); r != "" {
+		return r
+	}
+	return "/repo"
+}
